@@ -379,7 +379,7 @@ pub fn run_alpha(s: &mut Src, ctx: &mut Ctx) -> Verdict {
         return Verdict::Pass;
     }
     ctx.describe(|| format!("alpha {:?}", ops));
-    let mut mem = AlphaMemoryIndex::new();
+    let mut mem = crate::core::new_or_default(AlphaMemoryIndex::new);
     let mut facts: Vec<Vec<(usize, V)>> = Vec::new();
     // field -> number of facts present when its current index was created
     let mut indexed: BTreeMap<usize, usize> = BTreeMap::new();
@@ -893,7 +893,7 @@ pub fn run_memo(s: &mut Src, ctx: &mut Ctx) -> Verdict {
     ctx.describe(|| format!("memo {:?}", case));
     let nodes: Vec<ReteUlNode> = case.nodes.iter().map(build_node).collect();
     let sets: Vec<TypedFacts> = case.sets.iter().map(|fs| typed(&fs.iter().map(|(k, v)| (MF[*k], v)).collect::<Vec<_>>())).collect();
-    let mut memo = MemoizedEvaluator::new();
+    let mut memo = crate::core::new_or_default(MemoizedEvaluator::new);
     // (node, set, direct verdict) of every earlier step
     let mut hist: Vec<(usize, usize, bool)> = Vec::new();
     let (mut repeat, mut same_node_other_facts, mut verdict_differs) = (false, false, false);
@@ -1443,7 +1443,7 @@ pub fn run_precision(s: &mut Src, ctx: &mut Ctx) -> Verdict {
     let (s0, s1) = if first_x { (mk(x), mk(y)) } else { (mk(y), mk(x)) };
     // memo: the same node on both sets, twice
     let node = ReteUlNode::UlAlpha(AlphaNode { field: "a".to_string(), operator: op.to_string(), value: named.to_string() });
-    let mut memo = MemoizedEvaluator::new();
+    let mut memo = crate::core::new_or_default(MemoizedEvaluator::new);
     for (k, set) in [&s0, &s1, &s0, &s1].iter().enumerate() {
         let direct = node.evaluate_typed(set);
         let got = memo.evaluate(&node, set, |n, f| n.evaluate_typed(f));
@@ -1455,7 +1455,7 @@ pub fn run_precision(s: &mut Src, ctx: &mut Ctx) -> Verdict {
         }
     }
     // alpha memory: filter by either integer, with and without an index
-    let mut mem = AlphaMemoryIndex::new();
+    let mut mem = crate::core::new_or_default(AlphaMemoryIndex::new);
     if index_when == 1 || index_when == 4 {
         mem.create_index("a".to_string());
     }
@@ -1549,7 +1549,7 @@ pub fn run_lookalike(s: &mut Src, ctx: &mut Ctx) -> Verdict {
         t
     };
     let (s0, s1) = if first_x { (mk(&x), mk(&y)) } else { (mk(&y), mk(&x)) };
-    let mut mem = AlphaMemoryIndex::new();
+    let mut mem = crate::core::new_or_default(AlphaMemoryIndex::new);
     if index_when == 1 || index_when == 4 {
         mem.create_index("a".to_string());
     }
@@ -1588,7 +1588,7 @@ pub fn run_lookalike(s: &mut Src, ctx: &mut Ctx) -> Verdict {
     };
     for (op, value) in [("==", needle.clone()), ("!=", needle.clone()), ("contains", needle.clone()), (">", needle.clone()), ("==", "b".to_string()), ("!=", "b".to_string())] {
         let node = ReteUlNode::UlAlpha(AlphaNode { field: "a".to_string(), operator: op.to_string(), value: value.clone() });
-        let mut memo = MemoizedEvaluator::new();
+        let mut memo = crate::core::new_or_default(MemoizedEvaluator::new);
         for (i, set) in [&s0, &s1, &s0, &s1].iter().enumerate() {
             let direct = node.evaluate_typed(set);
             let got = memo.evaluate(&node, set, |n, f| n.evaluate_typed(f));
